@@ -768,7 +768,28 @@ pub fn probe_positions(m: &TreeModel, extra: &[usize]) -> Vec<usize> {
     v
 }
 
+thread_local! {
+    /// the state is read back by the interpreter's helper thread (a second thread of the same caller,
+    /// taking turns with the one that writes) — set per case by the properties that use it
+    static OBSERVE_ON_HELPER: std::cell::Cell<bool> = const { std::cell::Cell::new(false) };
+}
+
+pub fn observe_on_helper(on: bool) {
+    OBSERVE_ON_HELPER.with(|c| c.set(on));
+}
+
 pub fn compare(b: &mut dyn Backend, m: &TreeModel, focus: Focus, extra: &[usize]) -> Result<u64, String> {
+    if OBSERVE_ON_HELPER.with(|c| c.get()) {
+        let io = crate::gens::io_style();
+        return on_helper(|| {
+            crate::gens::set_io_style(io);
+            compare_here(b, m, focus, extra)
+        });
+    }
+    compare_here(b, m, focus, extra)
+}
+
+fn compare_here(b: &mut dyn Backend, m: &TreeModel, focus: Focus, extra: &[usize]) -> Result<u64, String> {
     let name = b.kind().name();
     let mut evals = 0u64;
     let g = guarded(|| -> Result<u64, String> {
@@ -1040,4 +1061,15 @@ pub fn proof_view<P: ZerokitMerkleProof<Index = u8, Hasher = PoseidonHash>>(p: &
 #[allow(dead_code)]
 pub fn fx(v: &Fr) -> Fx {
     Fx(*v)
+}
+
+/// the trees and the RLN object may be handed from one thread of a caller to another (they are
+/// `Send`); the second-thread observation relies on nothing more
+#[allow(dead_code)]
+fn _backends_are_send() {
+    fn s<T: Send>() {}
+    s::<FullMerkleTree<PoseidonHash>>();
+    s::<OptimalMerkleTree<PoseidonHash>>();
+    s::<PmTree>();
+    s::<RLN>();
 }
